@@ -80,7 +80,9 @@ def shard_send_shapes(args):
     col = Collector(PROP)
     ro_xml = gen.ro_with_layout(['S0', 'S1', 'S2'], 'mixed')
     extras = [T('storySlug', 'resent'), T('storyNum', '4'),
-              B.timing_block({'StoryDuration': '7'}), E('custom', T('k', 'v'), attrib={'a': '1'})]
+              B.timing_block({'StoryDuration': '7'}), E('custom', T('k', 'v'), attrib={'a': '1'}),
+              # a storyItem / storyBody-like element OUTSIDE the storyBody is content like any other
+              E('storyItem', T('itemID', 'OUTSIDE'), T('itemSlug', 'not in the body'))]
     for sid in ('S0', 'S1', 'S2'):
         for pos in range(-2, len(extras) + 1):
             nested = B.mk_item('J1', slug='inner')
@@ -99,7 +101,7 @@ def shard_send_shapes(args):
             b.find('storyBody').tail = 'after-body'
             msg = B.tostring(B.envelope(b, 3000))
             record(col, drive.eval_step({'ro_xml': ro_xml, 'msg_xml': msg}))
-    col.scopes.append('roStorySend: storyBody at every index among its 6 siblings (incl. first child, before roID/storyID) x each of 3 stories')
+    col.scopes.append('roStorySend: storyBody at every index among its 7 siblings (one of them a storyItem outside the body) (incl. first child, before roID/storyID) x each of 3 stories')
     return col
 
 
